@@ -86,7 +86,11 @@ def check(P: Project, R: Report) -> None:
                     ha, ho = run_paths(ast.Module(body=h.body, type_ignores=[]), fallible=False)
                     ok = not (ho.normal or ho.cont or ho.brk or ho.ret)
                     R.ob("R2", f"{f.qual}: handler for {sorted(shorts)} re-raises", ok, f"{f.module.rel}:{h.lineno}", "a handler can swallow the cancellation that implements the deadline")
+                reraises_all = False
                 if "TimeoutError" in shorts:
+                    _ha, _ho = run_paths(ast.Module(body=h.body, type_ignores=[]), fallible=False)
+                    reraises_all = not (_ho.normal or _ho.cont or _ho.brk or _ho.ret)
+                if "TimeoutError" in shorts and not reraises_all:  # (a handler that re-raises on every path eats nothing; what it does first is R1's subject)
                     body_ok = len(t.body) == 1 and isinstance(t.body[0], (ast.With, ast.AsyncWith)) and bool(_fail_after_arg(t.body[0]))
                     inner_ok = body_ok and all(isinstance(s, ast.Assign) and isinstance(s.value, ast.Await) for s in t.body[0].body) and len(t.body[0].body) == 1
                     R.ob("R2", f"{f.qual}: TimeoutError handler encloses only the bounded receive", body_ok and inner_ok, f"{f.module.rel}:{h.lineno}",
